@@ -248,11 +248,86 @@ def rule_r3(chk, F, cg):
         r.violation(root + ":result-not-final", "the returned error state is not read after the last pass", root)
 
 
+def rule_r4(chk, F):
+    """`a.iter().zip(b.iter())` silently stops at the shorter sequence.  In a relation that answers "do these two
+    type lists match/unify/agree" that turns a length mismatch into agreement on the common prefix — tuples and
+    lambda parameter lists carry their arity in the type, so programs with the wrong arity are accepted."""
+    import cfg
+    r = chk.rule("C05.R4", "every bool-valued relation in the semantic analysis that pairs two sequences with zip() "
+                           "also compares their lengths, and the comparison dominates the pairing")
+    c = F.crate("dora_frontend")
+    n = 0
+    for pth, mb in sorted(c.mir.items()):
+        if "::tests" in pth or "{closure" in pth:
+            continue
+        B = cfg.Body(mb)
+        if B.local_ty(0) != "bool":
+            continue
+        zips = [x for x in B.calls if x.name and x.name.endswith("iter::traits::iterator::Iterator::zip")]
+        if not zips:
+            continue
+        defs = cfg.simple_defs(B)
+
+        def seq_base(op, depth=0):
+            """the sequence an iterator operand was made from: follow iter()/into_iter()/rev()/copied()/... chains"""
+            if op[0] not in ("c", "m") or depth > 8:
+                return None
+            o = cfg.origin(B, op, defs)
+            if o[0] == "call":
+                nm = cfg.callee_name(cfg.callee_of(o[1]["f"])) or ""
+                if o[1]["a"] and last(nm) in ("iter", "into_iter", "iter_mut", "rev", "copied", "cloned", "skip", "types",
+                                             "deref", "as_slice", "as_ref", "clone", "borrow"):
+                    return seq_base(o[1]["a"][0], depth + 1)
+                return ("call", last(nm), tuple(seq_base(a, depth + 1) for a in o[1]["a"][:1]))
+            if o[0] in ("param", "local"):
+                return (o[0], o[1], tuple(q for q in o[2] if q not in ("*", "&")))
+            return None
+        # length comparisons: blocks whose switch operand is Eq/Ne of two len() results
+        lens = []
+        for sb in range(B.n):
+            t = B.blocks[sb]["t"]
+            if t[0] != "switch" or t[1][0] not in ("c", "m"):
+                continue
+            o = cfg.origin(B, t[1], defs)
+            if o[0] == "un" and o[1] == "Not":
+                o = cfg.origin(B, o[2], defs)
+            if o[0] != "bin" or o[1] not in ("Eq", "Ne"):
+                continue
+            sides = []
+            for side in (o[2], o[3]):
+                if side[0] not in ("c", "m"):
+                    continue
+                os_ = cfg.origin(B, side, defs)
+                if os_[0] == "call" and last(cfg.callee_name(cfg.callee_of(os_[1]["f"])) or "") == "len" and os_[1]["a"]:
+                    sides.append(seq_base(os_[1]["a"][0]))
+            if len(sides) == 2 and None not in sides:
+                lens.append((sb, set(sides)))
+        for z in zips:
+            if len(z.args) < 2:
+                continue
+            a, b = seq_base(z.args[0]), seq_base(z.args[1])
+            if a is None or b is None or a == b:
+                r.observe("%s: zip operands not traced to two sequences (%s, %s)" % (pth, a, b))
+                continue
+            n += 1
+            key = "%s:zip" % pth
+            ok = any(B.dominates(sb, z.block) and ss == {a, b} for sb, ss in lens)
+            r.instance(key + "@%d" % z.line, sample={"fn": pth, "a": str(a), "b": str(b), "length-check": ok})
+            if not ok:
+                r.violation(key + ":no-length-comparison",
+                            "the relation pairs two sequences with zip() without first comparing their lengths: zip "
+                            "stops at the shorter one, so sequences that differ only in length (a 2-tuple against a "
+                            "3-tuple type, a lambda with one parameter against one with two) are reported as "
+                            "matching and the ill-typed program is accepted", "%s:%d" % (B.file, z.line))
+    r.floor("zip-pairing relations", n, 5)
+
+
 def run(chk, F):
     cg = CallGraph(F)
     rule_r1(chk, F, cg)
     rule_r2(chk, F)
     rule_r3(chk, F, cg)
+    rule_r4(chk, F)
     chk.assumptions += [
         "narrow claim: decides that emission is gated on the absence of error diagnostics, that rejections are "
         "errors (not warnings) and that every checking pass is wired in; whether the type rules accept exactly the "
